@@ -4,6 +4,8 @@ from world import amounts, specials
 ID = "C04"
 LEAN_MODULES = ["QtyModel.Props.C04", "QtyModel.Props.Backends", "QtyModel.Props.OracleSound", "QtyModel.Props.TieTemplates"]
 HARNESS_GROUPS = ('g_derived',)
+# kinds of difference in the macro-level correspondence (tools/macrofront.py) that are failing inputs here
+MACRO_PARTS = ("impls",)
 RULE = ("every operator instance the model predicts from the declarations (catalogue 34, astronomical, synthetic) x "
         "every unit pair of the operand types x amount pairs x the four owned/borrowed forms; oracle = exact-rational "
         "bound on the result's reference-unit magnitude; non-trivial = both amounts non-zero and finite")
